@@ -155,7 +155,7 @@ type sessIn struct {
 type sessOut struct {
 	Sid          string
 	VResp, CResp *msg.NatHoleResp
-	OwnerLatency time.Duration // sid received -> NatHoleClient written
+	OwnerLatency time.Duration // NatHoleVisitor written -> NatHoleClient written (covers the controller's wait for the owner)
 	Note         string
 }
 
@@ -170,6 +170,7 @@ func drive(c *h.Case, book *tidBook, V *h.Peer, O *owner, in sessIn) sessOut {
 		<-sidCh
 	}
 	c.Ev("visitor", "tid", in.VTid, "mapped", in.V.Mapped, "assisted", in.V.Assisted, "twist", in.V.Twist)
+	t0 := time.Now()
 	if err := V.Send(&msg.NatHoleVisitor{TransactionID: in.VTid, ProxyName: in.Name, Protocol: in.Proto, SignKey: h.AuthKey(in.Sk, ts), Timestamp: ts,
 		MappedAddrs: in.V.Mapped, AssistedAddrs: in.V.Assisted}); err != nil {
 		out.Note = "visitor send failed"
@@ -186,7 +187,6 @@ func drive(c *h.Case, book *tidBook, V *h.Peer, O *owner, in sessIn) sessOut {
 		out.Note = "sid never reached the owner"
 		return out
 	}
-	t0 := time.Now()
 	if in.EarlyReport {
 		_ = O.p.Send(&msg.NatHoleReport{Sid: out.Sid, Success: true})
 		run.Count("reports_before_analysis", 1)
@@ -232,8 +232,8 @@ func judgePair(c *h.Case, in sessIn, out sessOut) string {
 		return ""
 	}
 	if out.VResp == nil && out.CResp == nil {
-		if out.OwnerLatency < time.Second && out.Note == "" {
-			c.Violation("no-response-to-reported-pair", "session %s: both observations were reported (owner answered %v after the sid hand-over) but neither party received a response within 25 s; %s", out.Sid, out.OwnerLatency, desc)
+		if out.OwnerLatency < time.Duration(natHoleTimeoutS)*time.Second/2 && out.Note == "" {
+			c.Violation("no-response-to-reported-pair", "session %s: both observations were reported (owner's report written %v after the visitor's request) but neither party received a response within 25 s; %s", out.Sid, out.OwnerLatency, desc)
 		} else {
 			run.Inconclusive("pair: no responses (" + out.Note + ")")
 		}
@@ -392,23 +392,43 @@ func modeSeen(mode int, sig string) {
 // history case: one address pair (its own score record on the server), a sequence of exchanges with
 // success reports in between
 
-func classesFor(rng *rand.Rand, idx int) (string, string) {
-	// the first cases get the hard/easy and hard/hard mixes whose sessions linger longest on the server (modes 2 and 4)
-	if idx%5 < 2 {
-		a := []string{"hard-port-irregular", "hard-ip", "hard-both", "hard-port-regular"}[rng.Intn(4)]
-		b := []string{"easy", "easy", "easy-public", "hard-port-regular", "hard-port-irregular"}[rng.Intn(5)]
-		if rng.Intn(2) == 0 {
-			a, b = b, a
+// classesFor: the first 60 % of the cases get the class pairs whose sessions linger longest on the server (modes 2 and 4
+// keep a session for up to 69 s), the rest the pairs that only meet modes 0, 1 and 3; so the single wait for the code's
+// own completion delay at the end of the run overlaps with the remaining work.
+func classesFor(rng *rand.Rand, idx, total int) (string, string) {
+	hardAny := []string{"hard-port-irregular", "hard-ip", "hard-both", "hard-port-regular"}
+	hardIrr := []string{"hard-port-irregular", "hard-ip", "hard-both"}
+	easy := []string{"easy", "easy", "easy-public"}
+	pick := func(l []string) string { return l[rng.Intn(len(l))] }
+	var a, b string
+	if idx < total*6/10 {
+		switch rng.Intn(10) {
+		case 0, 1, 2, 3:
+			a, b = pick(hardAny), pick(easy)
+		case 4, 5:
+			a, b = "hard-port-regular", "hard-port-regular"
+		case 6, 7:
+			a, b = "hard-port-regular", pick(hardIrr)
+		default:
+			a, b = pick(natClasses), pick(natClasses)
 		}
-		return a, b
+	} else {
+		if rng.Intn(3) == 0 {
+			a, b = pick(hardIrr), pick(hardIrr)
+		} else {
+			a, b = pick(easy), pick(easy)
+		}
 	}
-	return natClasses[rng.Intn(len(natClasses))], natClasses[rng.Intn(len(natClasses))]
+	if rng.Intn(2) == 0 {
+		a, b = b, a
+	}
+	return a, b
 }
 
 func historyCase(c *h.Case) {
 	rng := c.Rng
 	pfx := fmt.Sprintf("c%d.", c.Idx)
-	vClass, cClass := classesFor(rng, c.Idx)
+	vClass, cClass := classesFor(rng, c.Idx, nHistories)
 	nSess := 3 + rng.Intn(6)
 	switch x := rng.Intn(10); {
 	case x >= 9:
